@@ -111,6 +111,7 @@ def plan_cfgs(rng, md, n, modes=None):
                      'coloring': rng.choice([None, None, 'direct', 'subst']),
                      # cache of linear solutions keyed on the right-hand side (LinearRHSChecker): equal / negated /
                      # parallel right-hand sides are answered from the cache, zero ones skipped
+                     'permute': rng.random() < .4,
                      'rhsc': rng.choice([None, None, None, {'check_zero': True}, True, {'check_zero': True, 'max_cache_entries': 1}])})
     return cfgs
 
@@ -155,7 +156,7 @@ def observe_case(seed, opts, ncfg, want_runs=True, want_totals=True):
                     full = so.observe_full(p1, m, ref, rtol)
                     p2 = ob.build(m, {'mode': c['mode'], 'coloring': c.get('coloring')})
                     p2.run_model()
-                    blocks = so.observe_blocks(p2, m, ref, c['scaled'], c['fmt'], rtol)
+                    blocks = so.observe_blocks(p2, m, ref, c['scaled'], c['fmt'], rtol, permute=bool(c.get('permute')))
                 except AnalysisError:
                     meta['cfgs'].append(dict(c, skipped='solver-did-not-converge'))
                     continue
